@@ -87,7 +87,7 @@ fn gen_literal(rng: &mut Rng, hist: &mut Hist) -> (String, LTy) {
             _ => ("h", LTy::Half),
         }
     };
-    match rng.below(9) {
+    match rng.below(10) {
         0 | 1 => {
             // a rational with a small denominator written with 20–30 significant digits (maths-header style)
             hist.add("lit:long-decimal");
@@ -119,7 +119,7 @@ fn gen_literal(rng: &mut Rng, hist: &mut Hist) -> (String, LTy) {
         4 => {
             // exponent forms, small and large magnitudes
             hist.add("lit:exponent");
-            let forms: [(&str, LTy); 22] = [
+            let forms: [(&str, LTy); 25] = [
                 ("1e10", LTy::Float), ("2.5e-3f", LTy::Float), ("1.0e+38f", LTy::Float), ("6.02214076e23", LTy::Double),
                 ("1e300L", LTy::Double), ("4.9e-324L", LTy::Double), ("1e-45f", LTy::Float), ("3.4028235e38f", LTy::Float),
                 ("1.7976931348623157e308L", LTy::Double), ("2.2250738585072014e-308L", LTy::Double),
@@ -127,6 +127,9 @@ fn gen_literal(rng: &mut Rng, hist: &mut Hist) -> (String, LTy) {
                 ("1e23L", LTy::Double), ("8.98846567431158e307L", LTy::Double), ("1e-7h", LTy::Half), ("6.1e-5h", LTy::Half),
                 ("65504.0h", LTy::Half), ("123456789012345678.0L", LTy::Double), ("0.1e1f", LTy::Float),
                 ("9007199254740993.0L", LTy::Double), ("16777217.0f", LTy::Float),
+                // a float whose shortest digits (7.038531e-26) select the neighbouring float when they are read through a
+                // double (fix 265a080: format_literal prints the digits of the value as a double there)
+                ("7.038530691851209e-26f", LTy::Float), ("7.038531e-26f", LTy::Float), ("7.038530691851209e-26h", LTy::Half),
             ];
             let (t, ty) = *rng.pick(&forms);
             (t.to_string(), ty)
@@ -145,6 +148,18 @@ fn gen_literal(rng: &mut Rng, hist: &mut Hist) -> (String, LTy) {
             let b = rng.below(10000);
             let (sfx, ty) = fsuffix(rng);
             (format!("{}.{}{}", a, b, sfx), ty)
+        }
+        9 => {
+            // a random float / half written with the digits of its value as a double (15-17 of them): the lexer reads a
+            // double and rounds a second time, the printer goes back to the shortest digits of the float unless those
+            // would be read as a neighbour (fix 265a080)
+            hist.add("lit:float-with-double-digits");
+            let exp = 127 - 90 + rng.below(120) as u32;
+            let bits = (exp << 23) | (rng.next() as u32 & ((1u32 << 23) - 1));
+            let v = f32::from_bits(bits) as f64;
+            let text = format!("{}", v);
+            let text = if text.contains('.') || text.contains('e') { text } else { format!("{}.0", text) };
+            if rng.chance(3, 4) { (format!("{}f", text), LTy::Float) } else { (format!("{}h", text), LTy::Half) }
         }
         7 => {
             hist.add("lit:int-limit");
